@@ -25,7 +25,7 @@ func runC01(p *Prog, r *Report) {
 	r.Explain = append(r.Explain, "R-SYNC: every function that stores Buffer.Info re-sizes Buffer.Pos on every path through that store (directly or through a callee that does so on all its paths) or is confined to output mode; swapBuffers/clearPositions take the new Pos length from len(Info); every clearOutput() is closed by swapBuffers() on all paths.")
 	ruleSync(p, r, syncCfg{pkg: "harfbuzz", typ: "Buffer", info: "Info", pos: "Pos", haveOutput: "haveOutput",
 		clearOutput: "clearOutput", swap: "swapBuffers", resync: []string{"swapBuffers", "clearPositions"}, floorWriters: 7, floorBrackets: 9})
-	r.Explain = append(r.Explain, "R-BUDGET: in shaperOpentype.shape the stores of Buffer.maxOps and Buffer.maxLen, with values computed from len(Info), precede on every path each call that can reach a reader of these fields; in otMap.apply the call of applyString is unreachable from the exhausted edge of the maxLen test.")
+	r.Explain = append(r.Explain, "R-BUDGET: in shaperOpentype.shape the stores of Buffer.maxOps and Buffer.maxLen, with values computed from len(Info), precede on every path each call that can reach a reader of these fields; in otMap.apply the call of applyString is unreachable from the exhausted edge of the maxLen test, and every path from one applyString call to the next passes that test again (the only bound on the growth caused by multiple substitutions).")
 	ruleBudget(p, r, budgetCfg{pkg: "harfbuzz", typ: "Buffer", info: "Info", budgets: []string{"maxOps", "maxLen"},
 		entryPkg: "harfbuzz", entryRecv: "shaperOpentype", entry: "shape",
 		loopRecv: "otMap", loopFn: "apply", loopCallee: "applyString", loopCalleeRecv: "otApplyContext", loopBudget: "maxLen"})
@@ -141,6 +141,24 @@ func ruleBudget(p *Prog, r *Report, c budgetCfg) {
 			key := fmt.Sprintf("%s/%s-guards-%s", p.FnName(loop), c.loopBudget, c.loopCallee)
 			r.Instance(rule, key)
 			r.Check(guardedByAny(p, loop, in, gs), rule, key, p.IPos(in), fmt.Sprintf("the call of %s is unreachable from the exhausted edge of the %s test", c.loopCallee, c.loopBudget))
+			// the budget is tested again before every further application: no path from this call to a call of the callee
+			// (the same one in the next iteration, or another one) avoids every test of the budget
+			key2 := fmt.Sprintf("%s/%s-retested-before-next-%s", p.FnName(loop), c.loopBudget, c.loopCallee)
+			r.Instance(rule, key2)
+			isGuard := func(x ssa.Instruction) bool {
+				for _, g := range gs {
+					if x == ssa.Instruction(g.iff) {
+						return true
+					}
+				}
+				return false
+			}
+			hit, path := reachableFrom(p, loop, after(in), func(x ssa.Instruction) bool { return staticCallTo(x, callee) }, isGuard, nil)
+			if hit == nil {
+				r.OK(rule, key2, p.IPos(in), fmt.Sprintf("every path from one call of %s to the next passes a test of %s", c.loopCallee, c.loopBudget))
+			} else {
+				r.Bad(rule, key2, p.IPos(hit), fmt.Sprintf("%s can be called again at %s without %s having been tested since the previous call: the growth of the buffer is bounded only once per outer iteration, k applications in one stage multiply the length by 2^k", c.loopCallee, p.IPos(hit), c.loopBudget), path...)
+			}
 		}
 	}
 	r.Floor(rule+"(loop)", n, 1)
